@@ -146,7 +146,21 @@ func (s *scope) visible() []scopeEnt {
 	return r
 }
 
+// Feature switches (beyond the tier): each can be enabled separately so that a
+// construct is only registered once the unchanged tree is silent on it.
+const (
+	FRefTypes   = 1 << iota // types through references to top-level definitions (#I: int ...)
+	FListComp               // list comprehension terms [for v in [...] {v}]
+	FConflict               // one deliberately conflicting conjunct (error status must agree)
+	FStructDisj             // struct disjunctions with a discriminator field
+	FSelectors              // references through selectors (e.g. x.a), wrapped refs (ref & T, {ref})
+)
+
+// Prelude is declared at the top of every program that uses FRefTypes.
+const Prelude = "#I: int, #S: string, #N: number, #B: bool"
+
 type G struct {
+	F int // feature switches
 	T     *rapid.T
 	Tier  int
 	defs  []string // top-level definitions text
@@ -172,8 +186,33 @@ func (g *G) scalarTerm(w *W, sc *scope, concrete bool) *Term {
 					cands = append(cands, e.name)
 				}
 			}
+			if g.F&FSelectors != 0 && g.inDisj == 0 {
+				// not inside a disjunct: the selected field may be incomplete (its struct may be an
+				// unresolved disjunction), and an incomplete operand inside a disjunct is order
+				// dependent on the unchanged tree (known finding F26)
+				for _, e := range sc.visible() {
+					if e.w.kind == "struct" {
+						for _, f := range e.w.fields {
+							if f.w.same(w) {
+								cands = append(cands, e.name+"."+f.label)
+							}
+						}
+					}
+				}
+			}
 			if len(cands) > 0 {
-				return tx(rapid.SampledFrom(cands).Draw(t, "ref"))
+				r := rapid.SampledFrom(cands).Draw(t, "ref")
+				if g.F&FSelectors != 0 {
+					switch rapid.IntRange(0, 4).Draw(t, "refwrap") {
+					case 0:
+						return tx("(" + r + " & " + g.typeTerm(w).Text + ")")
+					case 1:
+						return tx("{" + r + "}")
+					case 2:
+						return tx("(" + r + " & _)")
+					}
+				}
+				return tx(r)
 			}
 			return tx(w.lit())
 		case k == 3 && sc.conc: // arithmetic / interpolation
@@ -258,6 +297,16 @@ func (g *G) scalarTerm(w *W, sc *scope, concrete bool) *Term {
 }
 
 func (g *G) typeTerm(w *W) *Term {
+	if g.F&FRefTypes != 0 && g.inDisj == 0 && rapid.IntRange(0, 3).Draw(g.T, "reftype") == 0 {
+		switch w.kind {
+		case "int":
+			return tx(rapid.SampledFrom([]string{"#I", "#N"}).Draw(g.T, "rty"))
+		case "string":
+			return tx("#S")
+		case "bool":
+			return tx("#B")
+		}
+	}
 	switch w.kind {
 	case "int":
 		return tx(rapid.SampledFrom([]string{"int", "number", "int"}).Draw(g.T, "ity"))
@@ -321,6 +370,14 @@ func (g *G) expr(w *W, sc *scope, needConcrete bool) *Expr {
 		if !needConcrete && rapid.Bool().Draw(t, "lopen") {
 			tm.Open = "..."
 		}
+		if g.F&FListComp != 0 && tm.Open == "" && len(tm.List) > 0 && rapid.IntRange(0, 3).Draw(t, "lcomp") == 0 {
+			// the same closed list written as a comprehension
+			var parts []string
+			for _, x := range tm.List {
+				parts = append(parts, x.String())
+			}
+			tm = tx("[for v in [" + strings.Join(parts, ", ") + "] {v}]")
+		}
 		e := &Expr{Conj: []*Term{tm}}
 		if rapid.IntRange(0, 3).Draw(t, "lty") == 0 {
 			e.Conj = append(e.Conj, tx("[...]"))
@@ -340,6 +397,11 @@ func (g *G) structExpr(w *W, sc *scope, needConcrete bool) *Expr {
 		n = 2
 	}
 	full := rapid.IntRange(0, n-1).Draw(t, "sfull")
+	if g.F&FStructDisj != 0 && g.Tier >= 1 && g.inDisj == 0 && rapid.IntRange(0, 4).Draw(t, "sdisj") == 0 {
+		if d := g.structDisj(w); d != nil {
+			e.Conj = append(e.Conj, d)
+		}
+	}
 	for i := 0; i < n; i++ {
 		st := g.StructLit(w, sc, needConcrete && i == full, i == full)
 		tm := &Term{Struct: st}
